@@ -63,7 +63,7 @@ func par(s shape) string {
 			return s.text
 		}
 	}
-	if s.text == "'z'" || strings.HasPrefix(s.text, "{") || strings.HasPrefix(s.text, "&{") || strings.HasPrefix(s.text, "!{") {
+	if s.text == "'z'" || ((strings.HasPrefix(s.text, "{") || strings.HasPrefix(s.text, "&{") || strings.HasPrefix(s.text, "!{")) && strings.HasSuffix(s.text, "}") && strings.Count(s.text, "{") == 1) {
 		return s.text
 	}
 	return "(" + s.text + ")"
